@@ -21,7 +21,11 @@ def run(name):
             return name, "DOES-NOT-BUILD", pid
         r = subprocess.run("VERIF_REPO=%s ./check %s --tier quick" % (W, pid), shell=True, cwd="/verif", env=env, capture_output=True, text=True)
         lines = [l[:300] for l in r.stdout.splitlines() if "VIOLATION clause" in l or "inconclusive:" in l][:3]
-        return name, {0: "SILENT", 1: "ALARM", 2: "INCONCLUSIVE"}.get(r.returncode, str(r.returncode)), pid + " " + " | ".join(lines)
+        verdict = {0: "SILENT", 1: "ALARM", 2: "INCONCLUSIVE"}.get(r.returncode, str(r.returncode))
+        if r.returncode == 1 and ("VIOLATION property=%s " % pid) not in r.stdout:
+            verdict = "DRIVER-ERROR"
+            lines = (r.stdout + r.stderr).splitlines()[-3:]
+        return name, verdict, pid + " " + " | ".join(lines)
     finally:
         subprocess.run("git -C /repo worktree remove --force %s" % W, shell=True)
 out = json.load(open("/verif/benign/RESULTS.json")) if os.path.exists("/verif/benign/RESULTS.json") else {}
